@@ -89,6 +89,7 @@ type PathResult struct {
 	Panic      *targetPanic
 	Observed   []string
 	PanicModel map[string]uint64
+	Events     []string // labels passed to vsym_Event, in execution order (native replay follows this order)
 }
 
 type knownPred struct {
@@ -156,6 +157,9 @@ type Machine struct {
 	allocBudget int64
 	panicOK     bool
 	overrides   map[string]Value
+	preemptBound, preemptions int // context bound: at most preemptBound switches away from a runnable thread (0 = unbounded)
+	coarse      bool // preempt only at vsym_Event/vsym_Yield and when a thread blocks
+	events      []string
 	sideMutex   map[*Value]*mutexState
 	sideWG      map[*Value]*wgState
 	sideCond    map[*Value]*condState
@@ -527,6 +531,7 @@ func (m *Machine) resetRun(item WorkItem) {
 	m.allocBudget = 1 << 20
 	m.panicOK = false
 	m.overrides = map[string]Value{}
+	m.events = nil
 	m.sideMutex = map[*Value]*mutexState{}
 	m.sideWG = map[*Value]*wgState{}
 	m.sideCond = map[*Value]*condState{}
@@ -534,6 +539,8 @@ func (m *Machine) resetRun(item WorkItem) {
 	m.clock, m.clockN = nil, 0
 	m.tokens, m.timers, m.afterFuncs, m.kvTokens, m.tokenByKey = nil, nil, nil, 0, nil
 	m.threads, m.cur, m.explore, m.killing = nil, nil, false, false
+	m.coarse = false
+	m.preemptBound, m.preemptions = 0, 0
 	m.finalAb, m.finalPan = nil, nil
 	m.freshID = 0
 	m.Solver.Reset()
@@ -554,6 +561,7 @@ func (m *Machine) RunPath(entry *ssa.Function, item WorkItem) (res PathResult) {
 	res.NewDecs, res.SymDecs, res.Unknowns, res.Steps = m.newDecs, m.symDecs, m.unknowns, m.steps
 	res.Known = m.knownHits
 	res.Observed = m.observed
+	res.Events = append([]string(nil), m.events...)
 	for k := range m.reached {
 		res.Reached = append(res.Reached, k)
 	}
